@@ -857,6 +857,24 @@ func (pc *PeerConnection) updateConnectionState(
 	pc.connectionStateMu.Lock()
 	defer pc.connectionStateMu.Unlock()
 
+	pc.updateConnectionStateLocked(iceConnectionState, dtlsTransportState)
+}
+
+// refreshConnectionState re-aggregates the connection state from the current states of the
+// transports. The transport states are read inside the critical section: an update computed
+// from a snapshot taken before another update ran must not overwrite that newer update.
+func (pc *PeerConnection) refreshConnectionState() {
+	pc.connectionStateMu.Lock()
+	defer pc.connectionStateMu.Unlock()
+
+	pc.updateConnectionStateLocked(pc.ICEConnectionState(), pc.dtlsTransport.State())
+}
+
+// updateConnectionStateLocked must be called with connectionStateMu held.
+func (pc *PeerConnection) updateConnectionStateLocked(
+	iceConnectionState ICEConnectionState,
+	dtlsTransportState DTLSTransportState,
+) {
 	connectionState := PeerConnectionStateNew
 	switch {
 	// The RTCPeerConnection object's [[IsClosed]] slot is true.
@@ -926,7 +944,7 @@ func (pc *PeerConnection) createICETransport() *ICETransport {
 			return
 		}
 		pc.onICEConnectionStateChange(cs)
-		pc.updateConnectionState(cs, pc.dtlsTransport.State())
+		pc.refreshConnectionState()
 	})
 
 	return transport
@@ -2720,7 +2738,7 @@ func (pc *PeerConnection) close(shouldGracefullyClose bool) error { //nolint:cyc
 	}
 
 	// https://www.w3.org/TR/webrtc/#dom-rtcpeerconnection-close (step #11)
-	pc.updateConnectionState(pc.ICEConnectionState(), pc.dtlsTransport.State())
+	pc.refreshConnectionState()
 
 	closeErrs = append(closeErrs, doGracefulCloseOps()...)
 
@@ -2945,7 +2963,7 @@ func (pc *PeerConnection) startTransports(
 		Role:         dtlsRole,
 		Fingerprints: []DTLSFingerprint{{Algorithm: fingerprintHash, Value: fingerprint}},
 	})
-	pc.updateConnectionState(pc.ICEConnectionState(), pc.dtlsTransport.State())
+	pc.refreshConnectionState()
 	if err != nil {
 		pc.log.Warnf("Failed to start manager: %s", err)
 
